@@ -100,3 +100,11 @@ func NaturalLoopOf(b *ssa.BasicBlock) (map[*ssa.BasicBlock]bool, *ssa.BasicBlock
 	}
 	return best, bestHead
 }
+
+// T applies the guard's translation.
+func (g Guard) T(v ssa.Value) ssa.Value {
+	if g.Tr == nil {
+		return v
+	}
+	return g.Tr(v)
+}
